@@ -84,6 +84,21 @@ func init() {
 					}
 				}
 			}
+			// the same construct parsed first with the other arities of the same base (`~7.0.0`, then
+			// `~7`): the documented interval of a range does not depend on what was parsed before
+			for _, c := range c05Table {
+				if len(c.arities) < 2 {
+					continue
+				}
+				for _, ar := range c.arities {
+					for _, v := range [][3]string{{"{d}", "{d}", "{d}"}, {"0", "{d}", "{d}"}} {
+						for _, p := range c05Probes(c.eco, "quick")[:2] {
+							out = append(out, &Config{ID: fmt.Sprintf("C05/%s/%s/%d/%s.%s.%s/after-other-arities/%s", c.eco, c.construct, ar, v[0], v[1], v[2], p), Pkg: zzhPkg, Func: "C05ShortHist",
+								Args: []ArgSpec{ArgStr(c.eco), ArgStr(c.construct), ArgTmpl(v[0]), ArgTmpl(v[1]), ArgTmpl(v[2]), ArgTmpl(""), ArgTmpl(p), ArgInt(int64(ar))}})
+						}
+					}
+				}
+			}
 			kinds := []string{"[a]", "[a,b]", "(a,b)", "[a,b)", "(a,b]", "[a,)", "(a,)", "(,b]", "(,b)", "a"}
 			for _, eco := range []string{"nuget", "maven"} {
 				bs := []string{"{d}.{d}", "{d}.{d}.{d}", "{d}.{d}.{D}{d}{d}{d}{d}{d}"}
@@ -125,7 +140,7 @@ func init() {
 			return out
 		},
 		Bounds: func(tier string) string {
-			return "constructs per DESIGN B.4 (16 shorthand constructs, 10 bracket forms x nuget/maven, hyphen ranges x npm/composer, pypi !=X.Y.*); base arity 1-3, digit runs of length 1 (thorough: also 2), bracket bounds and probes also with a six-digit component, leading zero components pinned (0.x, 0.0.x), optional pre-release base; probes from 4 (quick) / 6 (thorough) templates per ecosystem; pre-releases of exactly the upper bound are not decided where the documentation gives a plain '<' bound (cargo, composer, conan, gem, hex); lower pre-release sliver of npm x-ranges unclaimed; composer probes stable only; pypi probes final/post only"
+			return "each shorthand construct also after the same construct has been parsed with the other arities of the same base; constructs per DESIGN B.4 (16 shorthand constructs, 10 bracket forms x nuget/maven, hyphen ranges x npm/composer, pypi !=X.Y.*); base arity 1-3, digit runs of length 1 (thorough: also 2), bracket bounds and probes also with a six-digit component, leading zero components pinned (0.x, 0.0.x), optional pre-release base; probes from 4 (quick) / 6 (thorough) templates per ecosystem; pre-releases of exactly the upper bound are not decided where the documentation gives a plain '<' bound (cargo, composer, conan, gem, hex); lower pre-release sliver of npm x-ranges unclaimed; composer probes stable only; pypi probes final/post only"
 		},
 		Assume: []string{"documented intervals are the spec-side table c05Spec in harness/pkg/zzh/c05.go (sources cited there)"},
 	})
